@@ -43,8 +43,9 @@ pub struct RunResult {
     pub log: Vec<String>,
 }
 
+// process-wide (a worker executes one run at a time; code under test may panic on a helper thread)
+static LAST_PANIC: std::sync::Mutex<Option<String>> = std::sync::Mutex::new(None);
 thread_local! {
-    static LAST_PANIC: RefCell<Option<String>> = const { RefCell::new(None) };
     static IN_GUARD: RefCell<u32> = const { RefCell::new(0) };
 }
 
@@ -58,12 +59,17 @@ pub fn install_panic_hook() {
         } else {
             "<non-string panic>".to_string()
         };
-        LAST_PANIC.with(|p| *p.borrow_mut() = Some(format!("{} :: {}", loc, msg)));
+        if let Ok(mut p) = LAST_PANIC.lock() {
+            // keep the first panic of a run (a re-raised panic must not overwrite its origin)
+            if p.is_none() {
+                *p = Some(format!("{} :: {}", loc, msg));
+            }
+        }
     }));
 }
 
 fn take_panic() -> String {
-    LAST_PANIC.with(|p| p.borrow_mut().take()).unwrap_or_else(|| "<unknown panic>".into())
+    LAST_PANIC.lock().ok().and_then(|mut p| p.take()).unwrap_or_else(|| "<unknown panic>".into())
 }
 
 /// Strip the line number and message: the class of a panic is its source file.
